@@ -3259,7 +3259,8 @@ func (a *MedAction) Apply(path *Path, _ *PolicyOptions) (*Path, error) {
 }
 
 func (a *MedAction) ToConfig() oc.BgpSetMedType {
-	if a.action == MED_ACTION_MOD && a.value > 0 {
+	// a modification by zero keeps its sign: "0" would read back as 'replace with 0'
+	if a.action == MED_ACTION_MOD && a.value >= 0 {
 		return oc.BgpSetMedType(fmt.Sprintf("+%d", a.value))
 	}
 	return oc.BgpSetMedType(fmt.Sprintf("%d", a.value))
